@@ -1,11 +1,12 @@
 /-
-C08 — the full soundness statement is false for the code as it is: for each known deviation
-class a finite zone view is exhibited that is consistent with the records of the
-counter-example of `C08Cex.lean` and in which the response's claim is false, although the
-model of `verify_nsec` answers `Secure` (`…_unsound`).  Finite zone views are checked by
-boolean functions (`linkB`, `refuteB`) proved sound against `Spec/Denial.lean`, so each
-instance is closed by `decide`.  The same machinery gives the non-vacuity example of
-`soundness_partial` (`nonvacuous`).
+C08 — finite zone views, checked by boolean functions (`linkB`, `refuteB`) proved sound
+against `Spec/Denial.lean`, so that concrete instances are closed by `decide`:
+
+* for each of the nine regression inputs of `C08Cex.lean` (former findings) the zone view that
+  is consistent with the records and falsifies the claim (`…_must_reject`): together with
+  `…_rejected` it shows that rejecting is not merely what the repaired code does but what
+  soundness demands — `Secure` there would contradict `C08.soundness`;
+* the non-vacuity example of `soundness` (`Example.nonvacuous`).
 -/
 import HickoryVerif.Proofs.C08
 import HickoryVerif.Proofs.C08Cex
@@ -245,89 +246,97 @@ theorem refuteB_sound (F : FinZone) (q : Name) (qtype rcode : Nat) (answers : Li
 
 end FinZone
 
-/-- "the full soundness statement fails on this input": the model answers `Secure`, yet a zone
-view exists whose apex is the SOA owner (if any), whose chain contains every record, and in
-which the claim is false. -/
-def Unsound (q : Name) (qtype : Nat) (soa : Option Name) (rcode : Nat) (answers : List Ans)
+/-- "the records do not entail the claim": a zone view exists whose apex is the SOA owner (if
+any), whose chain contains every record, and in which the claim is false.  On such an input a
+sound validator must not answer `Secure`. -/
+def NotEntailed (q : Name) (qtype : Nat) (soa : Option Name) (rcode : Nat) (answers : List Ans)
     (nsecs : List Nsec) : Prop :=
-  verifyNsec q qtype soa rcode answers nsecs = .secure ∧
   ∃ Z : ZoneView, (∀ s, soa = some s → canonKey s = Z.apex) ∧ ConsistentWith nsecs Z ∧
     ¬ Claim q qtype rcode answers Z
 
-theorem unsound_of_finZone {q : Name} {qtype : Nat} {soa : Option Name} {rcode : Nat}
+theorem notEntailed_of_finZone {q : Name} {qtype : Nat} {soa : Option Name} {rcode : Nat}
     {answers : List Ans} {nsecs : List Nsec} (F : FinZone)
-    (hsec : verifyNsec q qtype soa rcode answers nsecs = .secure)
     (hapex : (match soa with | some s => canonKey s == F.apex | none => true) = true)
     (hlinks : nsecs.all (fun r => F.linkB r) = true)
-    (href : F.refuteB q qtype rcode answers = true) : Unsound q qtype soa rcode answers nsecs := by
-  refine ⟨hsec, F.view, ?_, FinZone.consistent_of_linkB F nsecs hlinks,
+    (href : F.refuteB q qtype rcode answers = true) :
+    NotEntailed q qtype soa rcode answers nsecs := by
+  refine ⟨F.view, ?_, FinZone.consistent_of_linkB F nsecs hlinks,
     FinZone.refuteB_sound F q qtype rcode answers href⟩
   intro s hs
   subst hs
   simpa [FinZone.view] using hapex
 
-/-! ### the nine instances (zone views found by the harness oracle, re-checked here) -/
+/-- consequence of `soundness`: where the claim is not entailed, the verdict is not `Secure` -/
+theorem not_secure_of_notEntailed {q : Name} {qtype : Nat} {soa : Option Name} {rcode : Nat}
+    {answers : List Ans} {nsecs : List Nsec} (hwf : InputsWF q soa answers nsecs)
+    (h : NotEntailed q qtype soa rcode answers nsecs) :
+    verifyNsec q qtype soa rcode answers nsecs ≠ .secure := by
+  intro hsec
+  obtain ⟨Z, h1, h2, h3⟩ := h
+  exact h3 (soundness hwf hsec Z h1 h2)
+
+/-! ### the nine regression inputs: zone views found by the harness oracle, re-checked here -/
 
 namespace Cex
 open FinZone
 
 /-- C08-F1a: { a.example. [1, 46, 47]; c.b.example. [1] } -/
 def C08_F1a_zone : FinZone := { apex := [[101, 120, 97, 109, 112, 108, 101]], recs := [([[101, 120, 97, 109, 112, 108, 101], [97]], [1, 46, 47]), ([[101, 120, 97, 109, 112, 108, 101], [98], [99]], [1])] }
-theorem C08_F1a_unsound :
-    Unsound C08_F1a_q 1 C08_F1a_soa 3 C08_F1a_answers C08_F1a_nsecs :=
-  unsound_of_finZone C08_F1a_zone C08_F1a_accepted.1 (by decide) (by decide) (by decide)
+theorem C08_F1a_must_reject :
+    NotEntailed C08_F1a_q 1 C08_F1a_soa 3 C08_F1a_answers C08_F1a_nsecs :=
+  notEntailed_of_finZone C08_F1a_zone (by decide) (by decide) (by decide)
 
 /-- C08-F1b: { example. [2, 6, 46, 47]; a.example. [1, 46, 47]; c.b.example. [1] } -/
 def C08_F1b_zone : FinZone := { apex := [[101, 120, 97, 109, 112, 108, 101]], recs := [([[101, 120, 97, 109, 112, 108, 101]], [2, 6, 46, 47]), ([[101, 120, 97, 109, 112, 108, 101], [97]], [1, 46, 47]), ([[101, 120, 97, 109, 112, 108, 101], [98], [99]], [1])] }
-theorem C08_F1b_unsound :
-    Unsound C08_F1b_q 1 C08_F1b_soa 0 C08_F1b_answers C08_F1b_nsecs :=
-  unsound_of_finZone C08_F1b_zone C08_F1b_accepted.1 (by decide) (by decide) (by decide)
+theorem C08_F1b_must_reject :
+    NotEntailed C08_F1b_q 1 C08_F1b_soa 0 C08_F1b_answers C08_F1b_nsecs :=
+  notEntailed_of_finZone C08_F1b_zone (by decide) (by decide) (by decide)
 
 /-- C08-F1c: { example. [2, 6, 46, 47]; x.*.example. [1]; a.example. [1, 46, 47]; c.example. [1] } -/
 def C08_F1c_zone : FinZone := { apex := [[101, 120, 97, 109, 112, 108, 101]], recs := [([[101, 120, 97, 109, 112, 108, 101]], [2, 6, 46, 47]), ([[101, 120, 97, 109, 112, 108, 101], [42], [120]], [1]), ([[101, 120, 97, 109, 112, 108, 101], [97]], [1, 46, 47]), ([[101, 120, 97, 109, 112, 108, 101], [99]], [1])] }
-theorem C08_F1c_unsound :
-    Unsound C08_F1c_q 1 C08_F1c_soa 3 C08_F1c_answers C08_F1c_nsecs :=
-  unsound_of_finZone C08_F1c_zone C08_F1c_accepted.1 (by decide) (by decide) (by decide)
+theorem C08_F1c_must_reject :
+    NotEntailed C08_F1c_q 1 C08_F1c_soa 3 C08_F1c_answers C08_F1c_nsecs :=
+  notEntailed_of_finZone C08_F1c_zone (by decide) (by decide) (by decide)
 
 /-- C08-F2a: { sub.example. [1, 2, 46, 47]; *.sub.example. [1]; t.example. [1] } -/
 def C08_F2a_zone : FinZone := { apex := [[101, 120, 97, 109, 112, 108, 101]], recs := [([[101, 120, 97, 109, 112, 108, 101], [115, 117, 98]], [1, 2, 46, 47]), ([[101, 120, 97, 109, 112, 108, 101], [115, 117, 98], [42]], [1]), ([[101, 120, 97, 109, 112, 108, 101], [116]], [1])] }
-theorem C08_F2a_unsound :
-    Unsound C08_F2a_q 1 C08_F2a_soa 3 C08_F2a_answers C08_F2a_nsecs :=
-  unsound_of_finZone C08_F2a_zone C08_F2a_accepted.1 (by decide) (by decide) (by decide)
+theorem C08_F2a_must_reject :
+    NotEntailed C08_F2a_q 1 C08_F2a_soa 3 C08_F2a_answers C08_F2a_nsecs :=
+  notEntailed_of_finZone C08_F2a_zone (by decide) (by decide) (by decide)
 
 /-- C08-F2b: { sub.example. [1, 2, 46, 47]; t.example. [1] } -/
 def C08_F2b_zone : FinZone := { apex := [[101, 120, 97, 109, 112, 108, 101]], recs := [([[101, 120, 97, 109, 112, 108, 101], [115, 117, 98]], [1, 2, 46, 47]), ([[101, 120, 97, 109, 112, 108, 101], [116]], [1])] }
-theorem C08_F2b_unsound :
-    Unsound C08_F2b_q 1 C08_F2b_soa 0 C08_F2b_answers C08_F2b_nsecs :=
-  unsound_of_finZone C08_F2b_zone C08_F2b_accepted.1 (by decide) (by decide) (by decide)
+theorem C08_F2b_must_reject :
+    NotEntailed C08_F2b_q 1 C08_F2b_soa 0 C08_F2b_answers C08_F2b_nsecs :=
+  notEntailed_of_finZone C08_F2b_zone (by decide) (by decide) (by decide)
 
 /-- C08-F3: { *.example. [1, 46, 47]; z.example. [1] } -/
 def C08_F3_zone : FinZone := { apex := [[101, 120, 97, 109, 112, 108, 101]], recs := [([[101, 120, 97, 109, 112, 108, 101], [42]], [1, 46, 47]), ([[101, 120, 97, 109, 112, 108, 101], [122]], [1])] }
-theorem C08_F3_unsound :
-    Unsound C08_F3_q 1 C08_F3_soa 3 C08_F3_answers C08_F3_nsecs :=
-  unsound_of_finZone C08_F3_zone C08_F3_accepted.1 (by decide) (by decide) (by decide)
+theorem C08_F3_must_reject :
+    NotEntailed C08_F3_q 1 C08_F3_soa 3 C08_F3_answers C08_F3_nsecs :=
+  notEntailed_of_finZone C08_F3_zone (by decide) (by decide) (by decide)
 
 /-- C08-F4: { z.w.example. [1, 46, 47]; zz.w.example. [1] } -/
 def C08_F4_zone : FinZone := { apex := [[101, 120, 97, 109, 112, 108, 101]], recs := [([[101, 120, 97, 109, 112, 108, 101], [119], [122]], [1, 46, 47]), ([[101, 120, 97, 109, 112, 108, 101], [119], [122, 122]], [1])] }
-theorem C08_F4_unsound :
-    Unsound C08_F4_q 1 C08_F4_soa 0 C08_F4_answers C08_F4_nsecs :=
-  unsound_of_finZone C08_F4_zone C08_F4_accepted.1 (by decide) (by decide) (by decide)
+theorem C08_F4_must_reject :
+    NotEntailed C08_F4_q 1 C08_F4_soa 0 C08_F4_answers C08_F4_nsecs :=
+  notEntailed_of_finZone C08_F4_zone (by decide) (by decide) (by decide)
 
 /-- C08-F5: { *.example. [16, 46, 47]; ).*.example. [1]; *.*.example. [1] } -/
 def C08_F5_zone : FinZone := { apex := [[101, 120, 97, 109, 112, 108, 101]], recs := [([[101, 120, 97, 109, 112, 108, 101], [42]], [16, 46, 47]), ([[101, 120, 97, 109, 112, 108, 101], [42], [41]], [1]), ([[101, 120, 97, 109, 112, 108, 101], [42], [42]], [1])] }
-theorem C08_F5_unsound :
-    Unsound C08_F5_q 1 C08_F5_soa 0 C08_F5_answers C08_F5_nsecs :=
-  unsound_of_finZone C08_F5_zone C08_F5_accepted.1 (by decide) (by decide) (by decide)
+theorem C08_F5_must_reject :
+    NotEntailed C08_F5_q 1 C08_F5_soa 0 C08_F5_answers C08_F5_nsecs :=
+  notEntailed_of_finZone C08_F5_zone (by decide) (by decide) (by decide)
 
 /-- C08-F6: { a.example. [1, 46, 47]; b.example. [47] } -/
 def C08_F6_zone : FinZone := { apex := [[101, 120, 97, 109, 112, 108, 101]], recs := [([[101, 120, 97, 109, 112, 108, 101], [97]], [1, 46, 47]), ([[101, 120, 97, 109, 112, 108, 101], [98]], [47])] }
-theorem C08_F6_unsound :
-    Unsound C08_F6_q 47 C08_F6_soa 0 C08_F6_answers C08_F6_nsecs :=
-  unsound_of_finZone C08_F6_zone C08_F6_accepted.1 (by decide) (by decide) (by decide)
+theorem C08_F6_must_reject :
+    NotEntailed C08_F6_q 47 C08_F6_soa 0 C08_F6_answers C08_F6_nsecs :=
+  notEntailed_of_finZone C08_F6_zone (by decide) (by decide) (by decide)
 
 end Cex
 
-/-! ### non-vacuity of `soundness_partial` -/
+/-! ### non-vacuity of `soundness` -/
 
 namespace Example
 open FinZone
@@ -352,37 +361,32 @@ def zone : FinZone :=
 theorem wf : InputsWF b_ex (some ex) [] nsecs :=
   ⟨rfl, fun s hs => by cases hs; rfl, by decide, by simp⟩
 
-/-- All hypotheses of `soundness_partial` hold together for a non-trivial input (NXDOMAIN for
-b.ex. with the three records of a signed zone, accepted as `Secure`, no deviation class, a
-zone view consistent with the records) — and so does its conclusion. -/
+/-- All hypotheses of `soundness` hold together for a non-trivial input (NXDOMAIN for b.ex.
+with the three records of a signed zone, accepted as `Secure`, a zone view consistent with the
+records) — and so does its conclusion. -/
 theorem nonvacuous :
     InputsWF b_ex (some ex) [] nsecs ∧
-    classify b_ex 1 (some ex) 3 [] nsecs = none ∧
     verifyNsec b_ex 1 (some ex) 3 [] nsecs = .secure ∧
     (∀ s, some ex = some s → canonKey s = zone.view.apex) ∧
     ConsistentWith nsecs zone.view ∧
     Claim b_ex 1 3 [] zone.view := by
-  have h1 : classify b_ex 1 (some ex) 3 [] nsecs = none := by decide
   have h2 : verifyNsec b_ex 1 (some ex) 3 [] nsecs = .secure := by decide
   have h3 : ∀ s, some ex = some s → canonKey s = zone.view.apex := by
     intro s hs; cases hs; decide
   have h4 : ConsistentWith nsecs zone.view := consistent_of_linkB zone nsecs (by decide)
-  exact ⟨wf, h1, h2, h3, h4, soundness_partial wf h1 h2 zone.view h3 h4⟩
+  exact ⟨wf, h2, h3, h4, soundness wf h2 zone.view h3 h4⟩
 
-/-- the other two arms are reachable under the same hypotheses: NODATA at a.ex. (direct match),
+/-- the other arms are reachable too: NODATA at a.ex. (direct match),
 wildcard NODATA and a wildcard-expanded answer in a zone with *.ex. -/
-theorem direct_reachable :
-    classify a_ex 16 (some ex) 0 [] nsecs = none ∧
-    verifyNsec a_ex 16 (some ex) 0 [] nsecs = .secure := by decide
+theorem direct_reachable : verifyNsec a_ex 16 (some ex) 0 [] nsecs = .secure := by decide
 
 def nsecsW : List Nsec :=
   [{ owner := ex, next := w_ex, types := [2, 6, 46, 47] },
    { owner := w_ex, next := c_ex, types := [1, 46, 47] },
    { owner := c_ex, next := ex, types := [1, 46, 47] }]
 
-theorem wildcard_nodata_reachable :
-    classify b_ex 16 (some ex) 0 [] nsecsW = none ∧
-    verifyNsec b_ex 16 (some ex) 0 [] nsecsW = .secure := by decide
+theorem wildcard_nodata_reachable : verifyNsec b_ex 16 (some ex) 0 [] nsecsW = .secure := by
+  decide
 
 /-- a.z.w.ex. answered from *.w.ex. (RRSIG labels 2), x.y.w.ex. NSEC xx.ex. (RFC 4035 B.6) -/
 theorem wildcard_answer_reachable :
@@ -391,7 +395,6 @@ theorem wildcard_answer_reachable :
                         next := ⟨[[120, 120], [101, 120]], true⟩, types := [1, 46, 47] }
     let answers : List Ans := [{ name := q, secure := true, rrsigLabels := none },
                                { name := q, secure := true, rrsigLabels := some 2 }]
-    classify q 1 none 0 answers [cov] = none ∧
     verifyNsec q 1 none 0 answers [cov] = .secure := by decide
 
 end Example
